@@ -836,6 +836,15 @@ def correspond(env, searching=False, model=True):
         src = gen_program(rng, cap)
         gens.append(src)
         cases.append(("g%d" % i, src))
+    # whole-grammar programs over a tiny name pool shared by variables, parameters and functions
+    # (lib/tinygen.py, made terminating): shadowing, hoisting, redeclaration and name collisions
+    # at every level, from SOURCE TEXT through the whole pipeline on both sides
+    try:
+        import tinygen
+        for i in range(50 * scale):
+            cases.append(("t%d" % i, tinygen.gen_terminating(rng, max_bytes=cap)))
+    except ImportError:
+        pass
     for i in range(n_mut):
         base = rng.choice(gens) if rng.random() < 0.8 else rng.choice(CORPUS)[1]
         cases.append(("m%d" % i, inject_static(rng, base) if rng.random() < 0.3 else mutate(rng, base)))
